@@ -92,6 +92,11 @@ SingleCases ==
       steps |-> << Step("skew", MScale(w, Cross(k)), SolSkew(k, w, Tau(tg[1], EffA(tg[2])), F0), tg[1], tg[2]) >>] :
         k \in SkewAxes, w \in {Q(1), Q(3)}, F0 \in F0s, tg \in TG}
 
+\* one very long call: simple shear to a shear strain of 50 in a single update (thousands of solver steps)
+LongCases == {[kind |-> "long", F0 |-> MatToSeq(F0),
+               steps |-> << Step("nil", N, SolNil(N, Q(25), F0), Q(25), [via |-> "const", a |-> QZ]) >>] :
+                 N \in {MScale(Q(2), E3(1, 3)), MScale(Q(2), E3(2, 1))}, F0 \in {MId, IntMat(<<<<2, 0, 1>>, <<-1, 1, 0>>, <<0, 1, 1>>>>)}}
+
 \* piecewise histories: products of nilpotent steps, each an update call (or several)
 SeqFlows == {MScale(Q(2), E3(1, 3)), MScale(Q(2), E3(2, 1)), IntMat(<<<<1, -1, 0>>, <<1, -1, 0>>, <<0, 0, 0>>>>),
              IntMat(<<<<0, 1, 2>>, <<0, 0, -1>>, <<0, 0, 0>>>>)}
@@ -110,7 +115,7 @@ SeqCases == {[kind |-> "sequence", F0 |-> MatToSeq(F0), steps |-> SeqSteps(fl, F
 Init == st \in {[phase |-> "go", kind |-> k] : k \in {"single", "sequence", "lemma"}}
 Next == /\ st.phase = "go"
         /\ \/ st.kind = "single" /\ \E c \in SingleCases : st' = [phase |-> "case", c |-> c]
-           \/ st.kind = "sequence" /\ \E c \in SeqCases : st' = [phase |-> "case", c |-> c]
+           \/ st.kind = "sequence" /\ \E c \in SeqCases \cup LongCases : st' = [phase |-> "case", c |-> c]
            \/ st.kind = "lemma" /\ \E N \in Nil2Set \cup Nil3Set, F0 \in F0s :
                  st' = [phase |-> "lemma", N |-> N, F0 |-> F0]
 Spec == Init /\ [][Next]_st
